@@ -1,0 +1,161 @@
+//go:build verif
+
+package hsms
+
+import "sync/atomic"
+
+// This file exists only under the `verif` build tag: a deterministic, goroutine-free driver for
+// the REAL supervisor used by the external verification harness (/verif). It adds code only.
+
+// Action kinds of a supervisor schedule (the atomic steps of supervisor.go).
+const (
+	VerifActCommitConnected = iota
+	VerifActCommitSelected
+	VerifActCommitSelectLost
+	VerifActInjectDisconnect
+	VerifActInjectT7
+	VerifActInjectClose
+	VerifActStepLoad   // run() receives one event; step() latches/loads state
+	VerifActStepFinish // the rest of step()
+	VerifActDeliver    // notifier takes one notification
+)
+
+// VerifSupSnap is the supervisor as observable after one action.
+type VerifSupSnap struct {
+	State       uint8
+	LastReacted uint8
+	Closed      bool
+	QLen        int
+	NLen        int
+	Dropped     uint64
+	Reacts      [][2]uint8 // react callbacks that ran during this action
+	Delivered   [][2]uint8 // notifications taken off the buffer during this action
+	Skipped     bool       // the action could not run (would block on a full events channel)
+}
+
+type verifSupDriver struct {
+	s      *supervisor
+	reacts [][2]uint8
+	deliv  [][2]uint8
+	out    []VerifSupSnap
+}
+
+func (d *verifSupDriver) snap(skipped bool) {
+	d.out = append(d.out, VerifSupSnap{
+		State: uint8(d.s.State()), LastReacted: uint8(d.s.lastReacted), Closed: d.s.closed,
+		QLen: len(d.s.events), NLen: len(d.s.notify), Dropped: d.s.droppedNotify.Load(),
+		Reacts: d.reacts, Delivered: d.deliv, Skipped: skipped,
+	})
+	d.reacts, d.deliv = nil, nil
+}
+
+// simple performs a non-step action and records the snapshot.
+func (d *verifSupDriver) simple(a int) {
+	s := d.s
+	full := len(s.events) == cap(s.events)
+	switch a {
+	case VerifActCommitConnected, VerifActCommitSelected, VerifActCommitSelectLost,
+		VerifActInjectDisconnect, VerifActInjectT7, VerifActInjectClose:
+		if full {
+			d.snap(true)
+			return
+		}
+	}
+	switch a {
+	case VerifActCommitConnected:
+		s.CommitConnected()
+	case VerifActCommitSelected:
+		s.CommitSelected()
+	case VerifActCommitSelectLost:
+		s.CommitSelectLost()
+	case VerifActInjectDisconnect:
+		s.inject(evDisconnect)
+	case VerifActInjectT7:
+		s.inject(evT7Timeout)
+	case VerifActInjectClose:
+		s.inject(evClose)
+	case VerifActDeliver:
+		select {
+		case sc := <-s.notify:
+			d.deliv = append(d.deliv, [2]uint8{uint8(sc.prev), uint8(sc.next)})
+		default:
+		}
+	}
+	d.snap(false)
+}
+
+// VerifSupervisorRun drives a fresh REAL supervisor through the schedule without any goroutine:
+// a StepLoad..StepFinish pair is one call of step(), and the actions between them run inside
+// step()'s load/store window (through the testHookAfterStateLoad seam), i.e. exactly as commits
+// landing between the supervisor's read and write of the state. One snapshot per action.
+func VerifSupervisorRun(schedule []int) []VerifSupSnap {
+	d := &verifSupDriver{}
+	var handlers atomic.Pointer[[]StateChangeHandler]
+	d.s = newSupervisor(func(prev, next ConnState) {
+		d.reacts = append(d.reacts, [2]uint8{uint8(prev), uint8(next)})
+	}, &handlers)
+	s := d.s
+
+	for i := 0; i < len(schedule); i++ {
+		a := schedule[i]
+		switch a {
+		case VerifActStepLoad:
+			// window = actions up to the matching StepFinish
+			j := i + 1
+			for j < len(schedule) && schedule[j] != VerifActStepFinish {
+				j++
+			}
+			window := schedule[i+1 : j]
+			if len(s.events) == 0 {
+				d.snap(false) // nothing to receive: StepLoad is a no-op
+				for _, w := range window {
+					d.simple(w)
+				}
+				if j < len(schedule) {
+					d.snap(false) // StepFinish with no step in flight
+				}
+				i = j
+				continue
+			}
+			ev := <-s.events
+			hookRan := false
+			s.testHookAfterStateLoad = func(fsmEvent) {
+				hookRan = true
+				d.snap(false) // after StepLoad
+				for _, w := range window {
+					d.simple(w)
+				}
+			}
+			if j >= len(schedule) {
+				// unterminated load at the end of the schedule: finish it anyway, unrecorded
+				s.step(ev)
+				if !hookRan {
+					d.snap(false)
+				}
+				s.testHookAfterStateLoad = nil
+				i = j
+				continue
+			}
+			s.step(ev)
+			s.testHookAfterStateLoad = nil
+			if !hookRan {
+				// closed latch: step returned before the load; the window runs as plain actions
+				d.snap(false)
+				for _, w := range window {
+					d.simple(w)
+				}
+			}
+			d.snap(false) // after StepFinish
+			i = j
+		case VerifActStepFinish:
+			d.snap(false) // StepFinish with no step in flight: no-op
+		default:
+			d.simple(a)
+		}
+	}
+
+	return d.out
+}
+
+// VerifTransition exposes the pure E37 transition table.
+func VerifTransition(cur ConnState, ev uint8) (ConnState, bool) { return transition(cur, fsmEvent(ev)) }
